@@ -78,7 +78,38 @@ class LineHooks(AwsHooks):
         return AwsHooks.call(self, num, st, e, args)
 
 
+def private_buffers(R, P):
+    """LINE/private-buffer: every caller of aws_format_standard_log_line assembles the line in storage that belongs to this
+    call alone - an automatic array or a block allocated in the call - because formatting runs before (outside) any lock:
+    a static or global line buffer is shared by all threads that log at the same time."""
+    n = 0
+    for g in P.by_key.values():
+        cs = g.calls(F)
+        if not cs or g.name == F:
+            continue
+        R.fn(g)
+        bufs = []
+        for b in g.blocks.values():
+            for el in b.elems:
+                for x in g.walk(el):
+                    if x["k"] == "init" and "fields" in x:
+                        for fld, a in zip(x["fields"], x.get("a", [])):
+                            if fld == "log_line_buffer":
+                                bufs.append(a)
+                    if x["k"] == "bin" and x["op"] == "=" and (g.d(x["a"][0]) or {}).get("k") == "member" and g.d(x["a"][0])["f"] == "log_line_buffer":
+                        bufs.append(x["a"][1])
+        if not R.require(bool(bufs), "%s: the line buffer handed to %s not found" % (g.name, F)):
+            continue
+        for a in bufs:
+            n += 1
+            shared = sorted({x["n"] for x in g.walk(a, follow_refs=True) if x["k"] == "var" and x.get("sc") in ("slocal", "global")})
+            R.check(not shared, "LINE", "private-buffer:%s" % g.name, where(g, cs[0]), "the line is assembled in storage private to the call (%s)" % g.show(a)[:50],
+                    "the line is assembled in %s, which has static storage and is shared by every thread that logs: concurrent calls format into the same bytes before the lock is taken (torn, merged or NUL-containing lines)" % shared)
+    R.require(n >= 2, "only %d callers of %s found (confirmed: default formatter, no-alloc logger)" % (n, F))
+
+
 def line_assembly(ctx, R, P):
+    private_buffers(R, P)
     f = P.fn(F)
     if not R.require(f is not None, "%s not found" % F):
         return
@@ -163,6 +194,18 @@ def line_assembly(ctx, R, P):
                 okr, det = False, "amount_written %s, index %r, total %s" % (aw, cur, tot)
     R.check(okr and cnt > 0, "LINE", "reported-length", "%s()" % F, "amount_written is the newline's index + 1 and at most total_length (%d success states)" % cnt, "the reported line length is wrong: %s" % det)
     # the caller's buffer
+    # literal characters of the line's format strings (everything but the conversions) + the newline
+    LIT, prints_subject = 1, False
+    import re as _re
+    for e_ in f.calls({"snprintf"}):
+        fm = RU.uncast(f, e_.node["a"][2]) if len(e_.node["a"]) > 2 else None
+        while fm is not None and fm["k"] in ("decay", "cast"):
+            fm = f.d(fm["a"][0])
+        if fm is not None and fm["k"] == "str":
+            LIT += len(_re.sub(r"%[-0-9.lzhjt]*[a-zA-Z]", "", fm["v"]))
+            if len(e_.node["a"]) > 3 and "subject_name" in f.show(e_.node["a"][3]):
+                prints_subject = True
+    R.require(LIT >= 10 and prints_subject, "line formatter: format literals / subject piece not found (%d literal characters)" % LIT)
     g = P.fn("s_default_aws_log_formatter_format")
     if R.require(g is not None, "s_default_aws_log_formatter_format not found"):
         R.fn(g)
@@ -171,9 +214,13 @@ def line_assembly(ctx, R, P):
             def call(self, num2, st, e, args):
                 c = e.get("callee") or ""
                 if c == "vsnprintf":
-                    return Poly.atom(num2.fresh(st, "needed", None, (-1, 2 ** 30)))
+                    r_ = Poly.atom(num2.fresh(st, "needed", None, (-1, 2 ** 30)))
+                    st.notes["needed"] = r_
+                    return r_
                 if c == "strlen":
-                    return Poly.atom(num2.fresh(st, "subject_len", None, (0, 2 ** 20)))  # ASSUMED: registered subject names are short
+                    r_ = Poly.atom(num2.fresh(st, "subject_len", None, (0, 2 ** 20)))  # ASSUMED: registered subject names are short
+                    st.notes["subject_len"] = r_
+                    return r_
                 if c == F:
                     fd = args[0]
                     base = num2.base_of(st, fd) if fd is not None else None
@@ -187,6 +234,17 @@ def line_assembly(ctx, R, P):
                         off = num2.field_off({"rec": "aws_string", "f": "bytes"})
                         ok = ext is not None and off is not None and entails(st, tot + off - ext) and entails(st, tot - 2 ** 32)
                     num2.__dict__.setdefault("room", []).append((e, ok, repr(buf), repr(tot)))
+                    # completeness: room for every variable-length piece plus the literal characters of the line
+                    nd, sl = st.notes.get("needed"), st.notes.get("subject_len")
+                    want = Poly.const(LIT)
+                    if nd is not None:
+                        want = want + nd
+                    if sl is not None:
+                        want = want + sl
+                    sn = st.env.get("v:subject_name")
+                    no_name = sn is not None and entails(st, sn) and entails(st, -sn)  # a NULL name prints nothing
+                    okc = tot is not None and nd is not None and (sl is not None or not prints_subject or no_name) and entails(st, want - tot)
+                    num2.__dict__.setdefault("complete", []).append((e, okc, repr(tot), repr(want)))
                     return Poly.atom(num2.fresh(st, "format", num2.ty(e)))
                 return AwsHooks.call(self, num2, st, e, args)
         n2 = Num(g, P, CallerHooks(), max_paths=20000)
@@ -197,3 +255,7 @@ def line_assembly(ctx, R, P):
         room = getattr(n2, "room", [])
         R.check(bool(room) and all(ok for e, ok, b, t in room), "LINE", "room", where(g, room[0][0]) if room else g.name, "the formatter is handed a buffer of at least total_length bytes (%d states)" % len(room),
                 "the line buffer handed to the formatter is shorter than total_length: %s" % [(b, t) for e, ok, b, t in room if not ok][:2])
+        comp = getattr(n2, "complete", [])
+        R.check(bool(comp) and all(ok for e, ok, t, w in comp), "LINE", "complete", where(g, comp[0][0]) if comp else g.name,
+                "total_length covers the formatted message, the subject name and the %d literal characters of the line for every message and subject length (%d states): the allocating formatter does not cut these off" % (LIT, len(comp)),
+                "the line is sized without one of its variable-length pieces (total_length %s, needed at least %s): long subject names or messages are truncated by the default formatter" % ((comp[0][2], comp[0][3]) if comp else ("?", "?")))
